@@ -137,6 +137,8 @@ def model(draw, tier, kinds=('exp', 'table', 'randpd'), nmin=2, tmax=24, allow_n
     m['noise'] = draw(noise())
     if draw(st.integers(0, 3)) == 0:
         m['scale'] = 10.0 ** draw(st.sampled_from([-9, -12, -10, 6]))
+    if draw(st.integers(0, 2)) == 0:
+        m['mem'] = 'F'
     m['none'] = []
     if allow_none and draw(st.booleans()):
         m['none'] = sorted(draw(st.lists(st.integers(0, T - 1), min_size=1, max_size=4, unique=True)))
@@ -359,7 +361,9 @@ def build_corr(m, G, xs, xa, none):
                     a = m['alpha'] * sign[i, j] * math.sqrt(abs(G[t][i, i] * G[t][j, j]))
                     M[i, j] = obs(g + a, [s + x for s, x in zip(xs[t][i][j], xa[t][i][j])])
                     M[j, i] = obs(g - a, [s - x for s, x in zip(xs[t][i][j], xa[t][i][j])])
-        content.append(M)
+        # memory layout of the timeslice matrices (column-major when the model asks for it: what `m.T`, np.asfortranarray or a
+        # (T, N, N) array with swapped axes hand over)
+        content.append(np.asfortranarray(M) if m.get('mem') == 'F' else M)
     return pe.Corr(content)
 
 
